@@ -583,8 +583,8 @@ def h7(ctx, rid):
             root = prog.fns[f.id].root
             key = 'quarantine|%s' % root
             # source = the blob path parameter; dest derived from corrupted dir name
-            src_o = core.origins_ip(prog, f, c.args[0], depth=0)
-            dst_o = core.origins_ip(prog, f, c.args[1], depth=0)
+            src_o = core.origins_ip(prog, f, c.args[0], depth=2)
+            dst_o = core.origins_ip(prog, f, c.args[1], depth=2)
             if not any(o.kind == 'call' and o.data.name == 'join' for o in dst_o):
                 ctx.bad(rid, key, c.where(), 'rename destination is not built by joining onto the quarantine directory')
                 continue
